@@ -713,6 +713,10 @@ func (R *Run) ruleResumeOffsetReply() {
 					a := cc.Call.Args
 					return []ssa.Value{a[len(a)-1]}, true
 				}
+				if strings.HasSuffix(name, "AppendUint32") || strings.HasSuffix(name, "AppendUint64") {
+					a := cc.Call.Args
+					return []ssa.Value{a[len(a)-1]}, true
+				}
 				if cc.Call.IsInvoke() && cc.Call.Method.Name() == "Size" {
 					return []ssa.Value{cc.Call.Value}, true
 				}
@@ -959,7 +963,7 @@ func (R *Run) ruleReplyConsistency() {
 		dbg := ""
 		for _, ci := range callsIn(ts) {
 			c := ci.Common()
-			if putUintWidth(calleeName(c)) != 4 {
+			if putUintWidth(calleeName(c)) != 4 && !strings.HasSuffix(calleeName(c), "AppendUint32") {
 				continue
 			}
 			a := c.Args
@@ -1224,8 +1228,35 @@ func (R *Run) ruleSkipSendsOnce() {
 		}
 		n++
 		// from the edge target, is another action-word write reachable before the item header is read again?
+		// the reads that make up the item header: whole reads of the connection inside the loop that come before any
+		// action word of the iteration (not dominated by an action-word write that is itself in the loop)
+		stop := map[ssa.Instruction]bool{firstItemRead(fn, rwc): true}
+		for _, b := range fn.Blocks {
+			if !inLoop(b) {
+				continue
+			}
+			for _, ins := range b.Instrs {
+				ci, ok := ins.(ssa.CallInstruction)
+				if !ok {
+					continue
+				}
+				if n := calleeName(ci.Common()); (n != "io.ReadFull" && n != "io.ReadAtLeast") || stripConv(ci.Common().Args[0]) != ssa.Value(rwc) {
+					continue
+				}
+				header := true
+				for _, w := range words {
+					wi := w.call.(ssa.Instruction)
+					if inLoop(wi.Block()) && instrDominates(wi, ins) {
+						header = false
+					}
+				}
+				if header {
+					stop[ins] = true
+				}
+			}
+		}
 		for _, w := range words {
-			if reachesWithout(e.To, 0, w.call.(ssa.Instruction), firstItemRead(fn, rwc)) {
+			if reachesWithoutAny(e.To, 0, w.call.(ssa.Instruction), stop) {
 				bad = P.ipos(w.call)
 			}
 		}
@@ -1310,7 +1341,14 @@ func (R *Run) rulePartialPreserved() {
 					good := ok && (flags&0x3 == 0 || (flags&P.osFlag("O_APPEND") != 0 && flags&P.osFlag("O_TRUNC") == 0))
 					R.check(good, "partial-preserved", construct, P.ipos(ci), "opened read-only or for appending", "the partial file is opened for writing without O_APPEND or with O_TRUNC: the bytes received before the interruption are overwritten or discarded")
 				case "Rename":
-					R.check(k == 0, "partial-preserved", construct, P.ipos(ci), "partial file renamed away (published)", "something is renamed onto a partial upload, replacing the bytes received so far")
+					good := k == 0
+					if !good && len(idxs) == 2 {
+						// the partial file itself moved (fileWrapper.Move): source is the wrapper's partial path
+						if f, ok := loadedField(c.Args[idxs[0]]); ok && f == "hotline.fileWrapper.incompletePath" {
+							good = true
+						}
+					}
+					R.check(good, "partial-preserved", construct, P.ipos(ci), "partial file renamed away (published) or moved whole", "something is renamed onto a partial upload, replacing the bytes received so far")
 				default:
 					R.bad("partial-preserved", construct, P.ipos(ci), op+" on a partial upload: the bytes received before an interruption are lost, while the server goes on telling the client to resume from them (or the client resumes and only its tail is kept)")
 				}
